@@ -131,6 +131,10 @@ func (e *compEngine) Run(a *agg, spec *PropSpec, seed uint64) {
 	strat := simrt.DrawStrategy(&srng, uint64(a.horizon))
 	out := runComp(seed, cc, nil, false, strat)
 	a.st.Runs++
+	if a.det {
+		a.detLines = append(a.detLines, fmt.Sprintf("%d %016x %d %016x %d", seed, out.LogHash, out.Steps, out.SwitchHash, len(out.Viol)))
+		return
+	}
 	a.horizon = (a.horizon*7 + float64(out.Steps)) / 8
 	a.st.SimSteps += out.Steps
 	a.st.Switches += out.Switches
